@@ -30,7 +30,8 @@ CONSTANTS
     DurOrder,             \* sequence of duration classes, e.g. <<"short","long","inf">>
     Dur,                  \* duration class -> ticks (-1 = never ends)
     TunnelKinds,          \* kinds that carry raw TCP tunnels: only they can hold "mute" work -- a tunnel whose
-                          \* client has sent EOF while the upstream neither answers nor closes
+                          \* client has sent EOF while the upstream neither answers nor closes -- and "reset"
+                          \* work -- a tunnel whose client connection broke while the upstream keeps its side
     GrpcKinds,            \* the kinds served by a gRPC server
     LateStartKinds,       \* kinds whose server may still be starting: it is in the registry of servers, but has not
                           \* been handed its listener yet (the two steps of proxy.serve) -- a signal during start-up
@@ -94,7 +95,7 @@ Canonical(k, d) ==
 \* a listener accepts a connection / request / stream
 Accept(k, d) ==
     /\ listening[k] /\ serving[k]
-    /\ d = "mute" => k \in TunnelKinds
+    /\ d \in {"mute", "reset"} => k \in TunnelKinds
     /\ Cardinality(ItemsOf(k)) < MaxItems
     /\ Canonical(k, d)
     /\ items' = Append(items, [srv |-> k, dur |-> d, at |-> clock, left |-> Dur[d], st |-> "run"])
